@@ -411,7 +411,8 @@ func (fr *Frame) applyContract(fc *FuncContract, name, short string, ord int, si
 				g.note("contract of %s has no modifies clause: treated as modifies all", short)
 			}
 			g.havocAll(st)
-		} else {
+		}
+		{
 			for _, m := range fc.Modifies {
 				locs, err := env.evalModLocs(m)
 				if err != nil {
@@ -606,9 +607,13 @@ func (fr *Frame) appendOp(c *ssa.CallCommon, args []Val, rt types.Type, st *Stat
 	g.assume(app(">=", newCap, newLen))
 	// destination array (content described by a quantified axiom over a fresh array symbol)
 	dst := g.fresh("app.arr", arrSort(SInt, g.sorts.SortOf(el)))
-	dstOff := sIte(fits, app("sl.off", s.T), "0")
-	srcArrOld := oldArr
-	srcOffOld := app("sl.off", s.T)
+	dstOff := g.bindConst("app.doff", SInt, sIte(fits, slPart(s, 1), "0"))
+	srcArrOld := g.bindConst("app.old", arrSort(SInt, g.sorts.SortOf(el)), oldArr)
+	oldArr = srcArrOld
+	srcOffOld := g.bindConst("app.soff", SInt, slPart(s, 1))
+	oldLen = g.bindConst("app.olen", SInt, slPart(s, 2))
+	addOff = g.bindConst("app.aoff", SInt, addOff)
+	addArr = g.bindConst("app.asrc", arrSort(SInt, g.sorts.SortOf(el)), addArr)
 	if g.abstractSlices() {
 		// opt abstract-slices: contents of multi-element appends are left unconstrained (sound, no quantifiers)
 		target := sIte(fits, app("sl.base", s.T), ref)
@@ -644,16 +649,19 @@ func (fr *Frame) copyOp(c *ssa.CallCommon, args []Val, rt types.Type, st *State)
 		srcArr = app(g.declareUF("str2bytes", []string{SInt}, arrSort(SInt, SInt)), src.T)
 		srcOff = "0"
 	} else {
-		srcLen = app("sl.len", src.T)
-		srcArr = app("select", g.heapGet(st, h), app("sl.base", src.T))
-		srcOff = app("sl.off", src.T)
+		srcLen = slPart(src, 2)
+		srcArr = app("select", g.heapGet(st, h), slPart(src, 0))
+		srcOff = slPart(src, 1)
 	}
 	srcArr = g.define("copy.src", arrSort(SInt, g.sorts.SortOf(el)), srcArr)
-	n := g.define("copy.n", SInt, app("minint", app("sl.len", dst.T), srcLen))
+	n := g.define("copy.n", SInt, app("minint", slPart(dst, 2), srcLen))
 	heap := g.heapGet(st, h)
-	oldArr := g.define("copy.old", arrSort(SInt, g.sorts.SortOf(el)), app("select", heap, app("sl.base", dst.T)))
+	oldArr := g.bindConst("copy.old", arrSort(SInt, g.sorts.SortOf(el)), app("select", heap, slPart(dst, 0)))
 	na := g.fresh("copy.arr", arrSort(SInt, g.sorts.SortOf(el)))
-	dOff := app("sl.off", dst.T)
+	dOff := g.bindConst("copy.doff", SInt, slPart(dst, 1))
+	srcOff = g.bindConst("copy.soff", SInt, srcOff)
+	srcArr = g.bindConst("copy.sarr", arrSort(SInt, g.sorts.SortOf(el)), srcArr)
+	n = g.bindConst("copy.len", SInt, n)
 	if g.abstractSlices() {
 		g.heapSet(st, h, sIte(app(">", n, "0"), app("store", heap, app("sl.base", dst.T), na), heap))
 		return g.goVal(n, types.Typ[types.Int])
@@ -662,7 +670,7 @@ func (fr *Frame) copyOp(c *ssa.CallCommon, args []Val, rt types.Type, st *State)
 		n, na, dOff, srcArr, srcOff, na, dOff))
 	g.assume(fmt.Sprintf("(forall ((i! Int)) (! (=> (or (< i! %s) (>= i! (+ %s %s))) (= (select %s i!) (select %s i!))) :pattern ((select %s i!))))",
 		dOff, dOff, n, na, oldArr, na))
-	g.heapSet(st, h, sIte(app(">", n, "0"), app("store", heap, app("sl.base", dst.T), na), heap))
+	g.heapSet(st, h, sIte(app(">", n, "0"), app("store", heap, slPart(dst, 0), na), heap))
 	return g.goVal(n, types.Typ[types.Int])
 }
 
